@@ -2,10 +2,13 @@ import Abverif.Model.Crypto.Pbkdf2
 import Abverif.Model.Crypto.Base64
 import Abverif.Model.Crypto.Base32
 import Abverif.Model.Crypto.Hex
+import Abverif.Model.Utf8Spec
 /-
 C19 — models of the authentication helpers of `autobahn/wamp/auth.py`, `autobahn/wamp/cryptosign.py`
 and `autobahn.util.xor`. Text (`str` that is ASCII by construction: base64, hex, decimal) is modelled
-as its octets. Every place where the Python raises is an explicit error constructor.
+as its octets; a `str` that may hold any character (the fields of the SCRAM auth message) is a `Text`,
+the list of its code points, and `.encode("utf8")` is `encodeUtf8` (the RFC 3629 encoder of
+`Model/Utf8Spec.lean`). Every place where the Python raises is an explicit error constructor.
 
   Cra.sign            compute_wcs(key, challenge)
   Cra.pbkdf2          pbkdf2(data, salt, iterations, keylen)          (hashfunc = default "sha256")
@@ -54,6 +57,25 @@ def decimalAux : Nat → Nat → Bytes → Bytes
 
 /-- `str(n)` / `f"{n}"` for a non-negative `int`, as ASCII octets -/
 def decimal (n : Nat) : Bytes := decimalAux (n + 1) n []
+
+/-- a Python `str` as the list of its code points -/
+abbrev Text := List Nat
+
+/-- the `str` whose code points are the given octets (ASCII / Latin-1 text) -/
+def Text.ofOctets (bs : Bytes) : Text := bs.map (·.toNat)
+
+/-- a literal of the source as a `str` -/
+def Text.lit (s : String) : Text := Text.ofOctets (ascii s)
+
+/-- `s.encode("utf8")`: RFC 3629 encoding of every code point; a lone surrogate (which a Python `str` may
+hold, e.g. from a JSON `\ud800` escape) raises `UnicodeEncodeError`. Values above U+10FFFF are not code
+points and cannot occur in a `str`; they are refused alike. -/
+def encodeUtf8 (t : Text) : Except Err Bytes :=
+  if t.all Utf8.isScalar then .ok (Utf8.encodeAll t) else .error .unicodeEncodeError
+
+/-- a `str` handed to `base64.b64decode`: the octets `Base64.decodeStr` takes (code points above 255 are
+clipped to 255: every non-ASCII character makes `b64decode` raise `ValueError` alike) -/
+def Text.clip (t : Text) : Bytes := t.map (fun c => UInt8.ofNat (min c 255))
 
 /-! ## WAMP-CRA -/
 namespace Cra
@@ -144,12 +166,20 @@ structure Prims where
 
 def sha256Prims : Prims := ⟨Sha256.hash, Hmac.sha256⟩
 
-/-- the attributes of the CHALLENGE that enter the auth message (all text, already `str` in Python) -/
+/-- the attributes of the CHALLENGE that enter the auth message, as octets (the UTF-8 octets of the
+`str` values; for the base64 / decimal text the code sees in practice these are the characters) -/
 structure Challenge where
   serverNonce : Bytes
   salt : Bytes          -- base64 text as received
   iterations : Nat
   channelBinding : Bytes
+
+/-- the same attributes as the Python `str` values `on_challenge` reads from `challenge.extra` -/
+structure ChallengeStr where
+  serverNonce : Text
+  salt : Text
+  iterations : Nat
+  channelBinding : Text
 
 def comma : UInt8 := 44
 
@@ -162,14 +192,22 @@ def serverFirst (ch : Challenge) : Bytes :=
 def clientFinalNoProof (ch : Challenge) : Bytes :=
   ascii "c=" ++ ch.channelBinding ++ ascii ",r=" ++ ch.serverNonce
 
-/-- `"{client_first_bare},{server_first},{client_final_no_proof}".format(...)` before `.encode("ascii")` -/
+/-- the octets of the auth message for fields given as octets:
+`client_first_bare , server_first , client_final_no_proof` -/
 def authMessageText (authid clientNonce : Bytes) (ch : Challenge) : Bytes :=
   clientFirstBare authid clientNonce ++ comma :: (serverFirst ch ++ comma :: clientFinalNoProof ch)
 
-/-- `.encode("ascii")`: code points are given as octets (Latin-1 range); anything ≥ 128 raises -/
-def authMessage (authid clientNonce : Bytes) (ch : Challenge) : Except Err Bytes :=
-  let t := authMessageText authid clientNonce ch
-  if t.any (· ≥ 128) then .error .unicodeEncodeError else .ok t
+/-- `"{client_first_bare},{server_first},{client_final_no_proof}".format(...)`: the `str` before it is encoded
+(`authid` is the SASLprep'd authid) -/
+def authMessageStr (authid clientNonce : Text) (ch : ChallengeStr) : Text :=
+  Text.lit "n=" ++ authid ++ Text.lit ",r=" ++ clientNonce
+    ++ Text.lit ",r=" ++ ch.serverNonce ++ Text.lit ",s=" ++ ch.salt
+    ++ Text.lit ",i=" ++ Text.ofOctets (decimal ch.iterations)
+    ++ Text.lit ",c=" ++ ch.channelBinding ++ Text.lit ",r=" ++ ch.serverNonce
+
+/-- `(...).encode("utf8")` (RFC 5802 §5.1: the user name, hence the auth message, is UTF-8) -/
+def authMessage (authid clientNonce : Text) (ch : ChallengeStr) : Except Err Bytes :=
+  encodeUtf8 (authMessageStr authid clientNonce ch)
 
 def clientKey (P : Prims) (saltedPassword : Bytes) : Bytes := P.hmac saltedPassword (ascii "Client Key")
 def storedKey (P : Prims) (saltedPassword : Bytes) : Bytes := P.hash (clientKey P saltedPassword)
@@ -187,26 +225,35 @@ structure Session where
   authMessage : Bytes
 
 /-- `AuthScram.on_challenge` after the KDF: the KDF output is an input (abstract KDF) -/
-def onChallenge (P : Prims) (authid clientNonce : Bytes) (ch : Challenge) (saltedPassword : Bytes) :
+def onChallenge (P : Prims) (authid clientNonce : Text) (ch : ChallengeStr) (saltedPassword : Bytes) :
     Except Err (Bytes × Session) := do
   let am ← authMessage authid clientNonce ch
   let proof ← clientProof P saltedPassword am
   pure (Base64.encode proof, ⟨saltedPassword, am⟩)
 
-/-- the KDF selection of `on_challenge` as the code does it today. `kdfArgon` is the abstract Argon2id
-(its result is *the unpadded base64 text* of the 32-octet tag, which is what `_hash_argon2id13_secret`
-returns). For `"pbkdf2"` the salt is handed to `pbkdf2()` as `str`, which that function rejects. -/
+/-- the KDF selection of `on_challenge`. `kdfArgon` is the abstract Argon2id (its result is *the unpadded
+base64 text* of the 32-octet tag, which is what `_hash_argon2id13_secret` returns; it decodes the salt
+itself). For `"pbkdf2"` the salt text is base64-decoded (`base64.b64decode(salt)`, lenient, `ValueError` /
+`binascii.Error` as CPython raises them) and SaltedPassword is the raw 32-octet output of
+PBKDF2-HMAC-SHA256(password, salt, iterations) — RFC 5802 §3 `Hi()` with SHA-256. -/
 inductive Kdf where
   | argon2id13 (memory : Option Nat)
   | pbkdf2
   | other
+
+/-- `_hash_pbkdf2_secret(password, base64.b64decode(salt), iterations)` -/
+def pbkdf2Secret (password saltB64 : Bytes) (iterations : Nat) : Except Err Bytes :=
+  match Base64.decodeStr saltB64 with
+  | .ok salt => Cra.pbkdf2 password salt iterations 32
+  | .valueError => .error .valueError
+  | .binasciiError => .error .binasciiError
 
 def saltedPassword (kdfArgon : Bytes → Bytes → Nat → Nat → Except Err Bytes)
     (kdf : Kdf) (password saltB64 : Bytes) (iterations : Nat) : Except Err Bytes :=
   match kdf with
   | .argon2id13 none => .error .valueError
   | .argon2id13 (some m) => kdfArgon password saltB64 iterations m
-  | .pbkdf2 => .error .valueError         -- `type(salt) == bytes` fails in pbkdf2(): "Invalid argument types"
+  | .pbkdf2 => pbkdf2Secret password saltB64 iterations
   | .other => .error .runtimeError
 
 inductive Welcome where
